@@ -9,8 +9,8 @@ package sherpa
 //   - native replay: the same scripted backend is registered on the engine's transport(s) with
 //     Transport.RegisterProtocol for the URL scheme "zz", so the real RoundTrip delegates to it.
 // Time is discrete-event (TIMERS_DES=1): a timer fires only when every goroutine is blocked, the
-// earliest deadline first.  Natively the same timers are real, with a 300 ms read timeout, 5 ms
-// pauses and stalls that last until the response body is closed or the request is cancelled.
+// earliest deadline first.  Natively the same timers are real, with a 2 s read timeout, 5 ms
+// (and, with PAUSES=1, 0.9 s / 1.4 s) pauses and stalls that last until the response body is closed or the request is cancelled.
 
 import (
 	"context"
@@ -32,7 +32,7 @@ import (
 )
 
 const (
-	zzReadTimeout = 300 * time.Millisecond
+	zzReadTimeout = 2 * time.Second // natively real time: wide margins against scheduling noise
 	zzShortPause  = 5 * time.Millisecond
 	zzMidPause    = zzReadTimeout * 45 / 100
 	zzLongPause   = zzReadTimeout * 70 / 100
@@ -430,6 +430,12 @@ func VerifEngine() {
 	zzWorld = world
 	world.known, world.steps, world.ctypes = map[string]bool{}, steps, gosym.Param("CTYPES")
 	world.pauses = gosym.Param("PAUSES") == 1
+	if !gosym.Symbolic() {
+		gosym.SettleWindow = 200 * time.Millisecond
+		if world.pauses {
+			gosym.SettleWindow = zzLongPause + 200*time.Millisecond
+		}
+	}
 	for i := range eps {
 		u, _ := url.Parse("zz://" + names[i] + ".backend:11434")
 		eps[i] = &domain.Endpoint{Name: names[i], URL: u, URLString: u.String(), Status: domain.StatusHealthy, BackoffMultiplier: 1, CheckInterval: 5 * time.Second}
